@@ -104,7 +104,14 @@ func main() {
 		}
 		tmp, _ := os.MkdirTemp("", "verif-replay-")
 		defer os.RemoveAll(tmp)
-		res := rp.Replay(os.Args[3], &run.Env{WorkDir: tmp, ReplayDir: filepath.Join(tmp, "replays"), Verbose: true})
+		rdir := filepath.Join(tmp, "replays")
+		if d := os.Getenv("VERIF_KEEP"); d != "" { // keep the replay file written by this re-run
+			rdir = d
+		}
+		res := rp.Replay(os.Args[3], &run.Env{WorkDir: tmp, ReplayDir: rdir, Verbose: true})
+		if res.Replay != "" && os.Getenv("VERIF_KEEP") != "" {
+			fmt.Println("new replay:", res.Replay)
+		}
 		for _, v := range res.Violations {
 			fmt.Printf("violation oracle=%s sig=%s cycle=%d\n   %s\n", v.Oracle, v.Sig, v.Cycle, v.Msg)
 		}
